@@ -79,6 +79,16 @@ class World:
             return lambda I2, *a, **k: b(I2, *a, **k)
         if name in EXC_PARENTS or name in self.exc_parents:
             return SClass(name)
+        # a module-level constant of the file the function under verification lives in (bound once to a literal)
+        cur = getattr(self, 'current', None)
+        if cur is not None:
+            try:
+                consts = extract.module_constants(cur.file)
+            except Exception:      # noqa
+                consts = {}
+            if name in consts:
+                self.lib.use(f'module-level constant {name} = {consts[name]!r} (bound once, to a literal, in {cur.file})')
+                return consts[name]
         return None
 
     def contract_for(self, cls, name):
